@@ -193,3 +193,5 @@ PROP = Prop(
                     min_nontrivial=200, doc="definitions, complements, NaN locus, CIs")],
     assumptions=["normal quantile reference: statistics.NormalDist (stdlib)"],
 )
+
+RULE_EXTRA = ('alphas down to 1e-300 and up to 1-1e-12 with the reference quantile taken through the lower tail; mirror tolerance scaled by the rounding of 1-p.')
